@@ -1,5 +1,5 @@
 import jax.numpy as jnp
-from jax import Array
+from jax import Array, lax
 from jax.ops import segment_max
 
 # ======================================================================================
@@ -56,7 +56,12 @@ def argmax(
     # Compute argmax over last dimension
     # ----------------------------------------------------------------------------------
     # Note: If multiple maxima exist, this approach will select the first index.
+    # Note: The maximum is located by comparing a to its maximum. The barrier makes sure
+    # that both computations see the same values of a; otherwise XLA may recompute a
+    # (with different rounding) inside each of them, such that no element equals the
+    # maximum.
     # ==================================================================================
+    a = lax.optimization_barrier(a)
     _max = jnp.max(a, axis=-1, keepdims=True, initial=initial, where=where)
     max_value_mask = a == _max
     if where is not None:
@@ -128,8 +133,10 @@ def segment_argmax(
         - Array: The maximum values. Has shape (num_segments, *data.shape[1:]).
 
     """
-    # Compute segment maximum and bring to the same shape as data
+    # Compute segment maximum and bring to the same shape as data (the barrier makes sure
+    # that the maximum and the comparison below see the same values of data)
     # ==================================================================================
+    data = lax.optimization_barrier(data)
     segment_maximum = segment_max(
         data=data,
         segment_ids=segment_ids,
